@@ -7,6 +7,8 @@ from driver import O, NT3, add_engine_binary, BINARIES
 # (engine source is tree-independent and compiled once; registry sources include PhQ and are compiled per tree)
 add_engine_binary('units', 'units_engine.cpp', [O('units_reg.cpp', True, d) for d in NT3])
 
+add_engine_binary('qty', 'qty_engine.cpp', [O('qty_reg.cpp', True, ['-DVF_NT=%d' % n, '-DVF_CHUNK=%d' % c]) for n in range(3) for c in range(6)])
+
 PLANS = {}
 def plan(name):
     def deco(fn): PLANS[name] = fn; return fn
@@ -35,6 +37,31 @@ LEXICON = 'the unit lexicon of DESIGN.md Appendix A (SI brochure, NIST SP 811, 1
 def c01(run):
     engine_step(run, 'units', ['C01'], need_factors=True)
     run.assumptions += [LEXICON, '__float128 evaluation of the exact rational factors (relative error < 2^-110)', 'tolerance 8 ulp for a two-leg conversion (measured maximum on the pinned tree: 3.01 ulp per leg)']
+
+@plan('C02')
+def c02(run):
+    engine_step(run, 'units', ['C02'], need_factors=True)
+    engine_step(run, 'qty', ['C02'])
+    run.assumptions += ['the plain scalar PhQ::Convert is the reference for every other entry point (it is itself validated against the symbol oracle by C01)',
+                        'reading of "identity": Convert(x,u,u) is bit-exact for the standard unit and within the rounding of the two legs (2 ulp) otherwise (DESIGN 6)']
+
+@plan('C14')
+def c14(run):
+    engine_step(run, 'qty', ['C14'])
+    run.assumptions += ['no NaN components (the statement is about non-NaN values)']
+
+@plan('C15')
+def c15(run):
+    engine_step(run, 'qty', ['C15'])
+
+@plan('C16')
+def c16(run):
+    engine_step(run, 'qty', ['C16'])
+    run.assumptions += ['narrowing is generated only inside the finite range of the narrower type (out-of-range float narrowing is undefined behaviour in C++)']
+
+@plan('C17')
+def c17(run):
+    engine_step(run, 'qty', ['C17'])
 
 @plan('C06')
 def c06(run):
